@@ -236,6 +236,9 @@ func c06(args []string) int {
 		}
 		got := map[string]bool{}
 		for _, s := range resp.Selected {
+			if got[s] {
+				ev.Violate(evidence.Violation{Key: fe.name + "|selected-twice", What: fe.name + ": a checker selected through several keys is instantiated more than once (its diagnostics would be printed once per instance)", Observed: c.String() + " -> " + s + " twice", Replay: replay})
+			}
 			got[s] = true
 		}
 		if nsel == 0 && len(got) == 0 {
